@@ -1,10 +1,8 @@
 (* Wire for C10 (harness/props/c10.py is the other side).
-   case (0 items)              -> (0 globals funs setup loop ok)   : transl sigma_rank
+   case (0 items)              -> (0 globals funs setup loop ok)   : transl sigma_rank   (ok = inside the pre-repair guard)
    case (1 o names)            -> (0 names')                       : sorted_site (sigma_rank o)
    case (2 o construct)        -> (0 decls guard)                  : promote (sigma_rank o)
    case (3 o names)            -> (0 (x)?)                         : pop_site (sigma_rank o)
-   case (4 items)              -> (0 globals funs setup loop ok)   : transl_fixed sigma_rank   (the candidate repair)
-   case (5 o construct)        -> (0 decls guard)                  : promote_fixed (sigma_rank o)
    case (6 progs)              -> (0 ((0 ((y e t)...)) | (1))...)  : map transl_dev  (device-registry sessions)
    dstmt: (0 x kind) | (1 y x meth)    kind: 0 Servo 1 Pot 2 Serial 3 Ultra 4 Button 5 Led   meth: 0 read 1 read_us 2 measure 3 pressed 4 state 5 bright
    stmt:  (0 x t) | (1 o (body...)) if | (2 o body) while | (3 o v body) for | (4 o (body...)) try
@@ -172,16 +170,6 @@ Definition run (v : wv) : wv :=
   | WL [WI 3; o; names] =>
       match un_tlist o, un_tlist names with
       | Some o, Some l => wok [wopt wtext (pop_site (sigma_rank o) l)]
-      | _, _ => wbad
-      end
-  | WL [WI 4; WL items] =>
-      match dec_items items with
-      | Some p => enc_out (transl_fixed sigma_rank p)
-      | None => wbad
-      end
-  | WL [WI 5; o; c] =>
-      match un_tlist o, dec_construct c with
-      | Some o, Some c => wok [WL (map enc_decl (promote_fixed (sigma_rank o) c)); wbool (guard c)]
       | _, _ => wbad
       end
   | WL [WI 6; WL progs] =>
